@@ -1199,6 +1199,28 @@ Fixpoint eval (fuel : nat) (cenv : env) (yt : option nat) (e : env) (s : store) 
               end
           | other => other
           end
+      | ECallP fx pargs =>
+          (* every argument expression is evaluated first, left to right; the packed ones are then
+             replaced by the values they iterate over (KotoVm::unpack_packed_arguments, at call time) *)
+          match ev e s fx with
+          | (RVal fv, e1, s1) =>
+              match evlist (map snd pargs) e1 s1 with
+              | (inr vs, e2, s2) =>
+                  (fix splice (fl : list bool) (vs : list value) (acc : list value) (s : store) : res * env * store :=
+                     match fl, vs with
+                     | [], [] => call fv (rev acc) e2 s
+                     | false :: fl', v :: vs' => splice fl' vs' (v :: acc) s
+                     | true :: fl', v :: vs' =>
+                         match iter_elems s v with
+                         | Some xs => splice fl' vs' (rev xs ++ acc) (consume_iter s v)
+                         | None => (RUnsup, e2, s)
+                         end
+                     | _, _ => (RUnsup, e2, s)
+                     end) (map fst pargs) vs [] s2
+              | (inl r, e2, s2) => (r, e2, s2)
+              end
+          | other => other
+          end
       | EPipe a fx args =>
           (* a -> f b  ==  f(a, b): the piped value is evaluated first *)
           match ev e s a with
